@@ -19,7 +19,9 @@ FUNCTIONS = [
 
 FOREIGN_POSITIONS = ["", "g", "dc", "m", "m.init_args", "ld.0", "fit", "od", "dd.k", "nd"]
 # the foreign key is either unrelated ('zz') or a truncated sibling name (a proper string prefix of a key defined at that position)
-FOREIGN_NAMES = {"": ["zz", "num"], "g": ["zz", "cou"], "m.init_args": ["zz", "hidden"], "fit": ["zz", "max"], "nd": ["zz", "size"]}
+FOREIGN_NAMES = {"": ["zz", "num", "zz+", "a+"], "g": ["zz", "cou", "zz+", "c+"], "m.init_args": ["zz", "hidden", "zz+"], "fit": ["zz", "max", "zz+", "y+"], "nd": ["zz", "size", "zz+"],
+                 "dc": ["zz", "zz+"], "ld.0": ["zz", "zz+"], "od": ["zz", "zz+"], "dd.k": ["zz", "zz+"], "m": ["zz", "zz+"]}
+# ('+' is the list-append suffix: on an unknown key, or on a key that is not list-typed, it is as foreign as any other key)
 FOREIGN_KINDS = ["int", "none", "dict", "str"]
 REQUIRED_KEYS = ["a", "g.b", "dc.a", "m.init_args.w", "ld.0.a", "fit.x", "subcommand+fit", "m", "od.a", "dd.k.a"]
 REMOVAL_KINDS = ["removed", "none"]
@@ -156,7 +158,9 @@ def _foreign_once(pos, kind, channel, name="zz"):
             return None
     if channel == "env" and pos in ("g", "fit"):
         return None  # environment variables that no argument reads are not an input of the parser
-    if channel == "argv" and name != "zz" and pos in ("", "g", "fit"):
+    if channel in ("argv", "env") and name.endswith("+") and name != "zz+":
+        return None  # '--a+=5' / APP_A+ : the append form of a real option is a different question (C04)
+    if channel == "argv" and name not in ("zz", "zz+") and pos in ("", "g", "fit"):
         return None  # on the command line a unique prefix of an option name is argparse's documented abbreviation of that option
     if channel == "validate" and pos not in ("", "g", "fit", "dc", "nd"):
         return None  # (validate channel: only the namespace levels are tampered with)
@@ -164,7 +168,7 @@ def _foreign_once(pos, kind, channel, name="zz"):
     S.note("foreign")
     if status == "ok":
         return Fail("foreign-key:accepted", position=pos, value_kind=kind, channel=channel, name=name)
-    if name not in res:
+    if name.rstrip("+") not in res:
         return Fail("foreign-key:error-does-not-name-the-key", position=pos, value_kind=kind, channel=channel, name=name, message=res[:300])
     return True
 
